@@ -202,6 +202,23 @@ def scan_hot_lines(prefix: str):
                                     f = f.value
                                 if isinstance(f, ast.Name) and f.id in imported and f.id not in local_names:
                                     lines.add(n.lineno)
+                # an explicit iterator over a shared container (iter(X), X = self.<attr>, a module-level container, or its
+                # .values() / .items() / .keys()): another task may resize it before the iterator is advanced.  (for-loops and
+                # comprehensions over self.<attr> are not included: on this code base they are almost all graph construction
+                # on the calling thread and would only dilute the boost.)
+                def shared_iterable(x):
+                    if isinstance(x, ast.Call) and isinstance(x.func, ast.Attribute) and x.func.attr in ("values", "items", "keys") and not x.args:
+                        x = x.func.value
+                    if isinstance(x, ast.Name):
+                        return x.id in module_names and x.id not in local_names
+                    return isinstance(x, (ast.Attribute, ast.Subscript)) and is_shared(x)
+
+                for n in ast.walk(fdef):
+                    its = []
+                    if isinstance(n, ast.Call) and isinstance(n.func, ast.Name) and n.func.id == "iter" and n.args:
+                        its.append(n.args[0])
+                    if any(shared_iterable(x) for x in its):
+                        lines.add(n.lineno)
                 # locals that are plain aliases of a module-level variable:  x = MODVAR  (x bound nowhere else in the function)
                 bound = {}
                 for n in ast.walk(fdef):
